@@ -281,6 +281,9 @@ static pixman_fixed_t *make_and_check(const axcfg *cx, const axcfg *cy, int enum
 }
 
 /* items 5 and 6.  phases_x/phases_y: size of the destination (one pixel per phase centre). */
+/* when set (and of the same length as the block under test), the image is first given this other block and drawn from once: storing a
+ * block must not depend on what the image held before */
+static const pixman_fixed_t *g_prev_block; static int g_prev_n;
 static int image_check(const pixman_fixed_t *params, int n, const axcfg *cx, const axcfg *cy, int w, int h, int tol, const char *desc)
 {
     uint32_t srcbits[16];
@@ -292,6 +295,12 @@ static int image_check(const pixman_fixed_t *params, int n, const axcfg *cx, con
     pixman_image_t *dst = pixman_image_create_bits(PIXMAN_a8r8g8b8, dw, dh, dbits, dw * 4);
     if (!src || !dst || !dbits) { vf_harderr("image allocation failed"); ok = 0; goto out; }
     pixman_image_set_repeat(src, PIXMAN_REPEAT_NORMAL);
+    if (g_prev_block && g_prev_n == n) {
+        uint32_t one = 0; pixman_image_t *scratch = pixman_image_create_bits(PIXMAN_a8r8g8b8, 1, 1, &one, 4);
+        pixman_image_set_filter(src, PIXMAN_FILTER_SEPARABLE_CONVOLUTION, g_prev_block, g_prev_n);
+        pixman_image_composite32(PIXMAN_OP_SRC, src, NULL, scratch, 0, 0, 0, 0, 0, 0, 1, 1);
+        pixman_image_unref(scratch); vf_count_libcalls(2);
+    }
     pixman_bool_t acc = pixman_image_set_filter(src, PIXMAN_FILTER_SEPARABLE_CONVOLUTION, params, n);
     vf_count_libcalls(1);
     if (!acc) {
@@ -447,7 +456,15 @@ static void cross_case(uint64_t idx, void *ctx)
     vf_outcome(vf_hash64(params, (size_t)n * sizeof params[0], 19));
     /* 2-D image check at every phase pair, when cheap enough and when the bound of the header comment applies */
     uint64_t work = ((uint64_t)w * h) << (cx->bits + cy->bits);
-    if ((int64_t)w * h <= 256 && work <= (1u << 22)) image_check(params, n, cx, cy, w, h, 1, "cross");
+    if ((int64_t)w * h <= 256 && work <= (1u << 22)) {
+        image_check(params, n, cx, cy, w, h, 1, "cross");
+        /* the same block stored over the block of the swapped configuration (same length, other layout) on an image that was used with it */
+        if (!vf_failed() && cx != cy) {
+            int ns; pixman_fixed_t *swapped = pixman_filter_create_separable_convolution(&ns, cy->scale, cx->scale, cy->rk, cx->rk, cy->sk, cx->sk, cy->bits, cx->bits);
+            if (swapped && ns == n) { g_prev_block = swapped; g_prev_n = ns; image_check(params, n, cx, cy, w, h, 1, "cross, stored over the x/y-swapped block of the same length"); g_prev_block = NULL; }
+            free(swapped);
+        }
+    }
     else {
         if (!vf_in_confirm) __atomic_add_fetch(&sh->skipped2d, 1, __ATOMIC_RELAXED);
         /* still require acceptance by set_filter */
